@@ -114,12 +114,12 @@ def rule_table_style(prog, rep, tier):
                 rep.holds("TABLE-style", "%s.%s subset of TOKENS.%s" % (nm, s, s), "doctrans/docstring_utils.py", "")
     # google/numpydoc: a parameter line the writer can produce must not look like the start of an "afterward" section
     # to the reader (`elem[0].endswith(":")` in _parse_phase_numpydoc_and_google)
-    rd = prog.fn("docstring_parsers._parse_phase_numpydoc_and_google")
     section_suffix = None
-    for c in ast.walk(rd.node):
-        if isinstance(c, ast.Call) and isinstance(c.func, ast.Attribute) and c.func.attr == "endswith" and c.args and isinstance(c.args[0], ast.Constant) \
-                and isinstance(c.func.value, ast.Subscript) and isinstance(c.func.value.slice, ast.Constant) and c.func.value.slice.value == 0:
-            section_suffix = c.args[0].value
+    for rd in prog.modules["docstring_parsers"].functions.values():
+        for c in ast.walk(rd.node):
+            if isinstance(c, ast.Call) and isinstance(c.func, ast.Attribute) and c.func.attr == "endswith" and c.args and isinstance(c.args[0], ast.Constant) \
+                    and isinstance(c.func.value, ast.Subscript) and isinstance(c.func.value.slice, ast.Constant) and c.func.value.slice.value == 0:
+                section_suffix = c.args[0].value
     if section_suffix is not None:
         # templates of the non-rest branches that carry the parameter name
         branches = [b for b in ast.walk(eps.node) if isinstance(b, ast.If)]
@@ -240,8 +240,8 @@ def rule_table_kind(prog, rep, tier, domain=("static", "self", "cls")):
                                   "emit.function writes a first argument named %r for that kind but get_function_type recognises only %r: the kind is parsed back as static" % (v, sorted(recog)), loc(prog, gft.node)))
     # **kwargs suffix agreement
     sites = []
-    for q in ("emit.function", "docstring_parsers._set_name_and_type", "ast_utils._resolve_arg", "defaults_utils.set_default_doc", "parser_utils._inspect_process_ir_param"):
-        fi = prog.fn(q)
+    for fi in prog.all_functions():
+        q = fi.qualname
         for c in ast.walk(fi.node):
             if isinstance(c, ast.Call) and isinstance(c.func, ast.Attribute) and c.func.attr == "endswith" and c.args and isinstance(c.args[0], ast.Constant) \
                     and isinstance(c.func.value, (ast.Name, ast.Subscript)) and (names_in(c.func.value) & {"name", "param"}):
@@ -343,8 +343,9 @@ def rule_table_argparse(prog, rep, tier):
                     loc(prog, rf.node)))
     # action / loads constants
     acts_w = set()
-    for q in ("ast_utils._parse_node_for_arg", "ast_utils._infer_type_and_default_for_list_or_tuple", "ast_utils._parse_default_from_ast"):
-        fi = prog.fn(q)
+    for fi in prog.reachable([w]):
+        if fi.module.name != "ast_utils":
+            continue
         for st in ast.walk(fi.node):
             if isinstance(st, ast.Assign):
                 tg = st.targets[0]
